@@ -362,6 +362,40 @@ fn explore_enum(prop: &str, idx: usize, e: &Entry, maxlen: usize, t: &mut Tally)
             }
         }
     }
+    // bodies that are token trees but not meta syntax, inside every variant's list form: an
+    // error (never a value, never a panic), whatever the variant's shape
+    {
+        let en = e.prog.en(e.prog.root);
+        for v in &en.variants {
+            let name = en.eff_name(v);
+            if name.contains('-') {
+                continue;
+            }
+            for body in ["a b", "x = ", "=", "x = 1 y", "=>", "x(a b)", "x = 1, , y"] {
+                let src = format!("#[e({name}({body}))] struct S;");
+                let obs = (e.run)(&src);
+                t.evaluations += 1;
+                t.traces += 1;
+                t.nontrivial += 1;
+                let complaint = match &obs {
+                    Obs::Err { leaves, .. } if !leaves.is_empty() => None,
+                    Obs::NoParse(_) => None, // not an attribute at all
+                    Obs::Panic(p) => Some(format!("panicked: {p}")),
+                    other => Some(format!("a variant body that is not meta syntax gave {other:?}")),
+                };
+                if let Some(c) = complaint {
+                    t.violate(Violation {
+                        key: format!("{prop} family=[{}] src=`{src}` :: {c}", e.prog.family),
+                        what: format!("[{}] `{src}`: {c}", e.prog.family),
+                        case: json!({"engine": "corpus", "program": idx, "items": [], "src": src}),
+                        detail: json!({}),
+                    });
+                } else {
+                    t.hit("malformed_variant_bodies");
+                }
+            }
+        }
+    }
     // absent
     if let Some(aux) = e.aux {
         t.evaluations += 1;
